@@ -102,8 +102,12 @@ func (w *c01World) apply(op c01Op) bool {
 	led := &w.led
 	credit := false
 	var before [c01MaxStreams]bool // eligible before the event
+	var framesBefore [c01MaxStreams]int
 	for i, ls := range led.ls {
 		before[i] = ls != nil && led.eligible(ls)
+		if ls != nil {
+			framesBefore[i] = ls.frames
+		}
 	}
 	switch op.kind {
 	case c01KOpen, c01KOpenBig:
@@ -179,18 +183,21 @@ func (w *c01World) apply(op c01Op) bool {
 			}
 			h := make([]byte, 5)
 			binary.BigEndian.PutUint32(h[1:], uint32(op.n))
-			off := len(ls.exp)
+			off := ls.total
 			dropped := ls.cleanupPut
 			start := (int(op.s)*9973 + off) % 65536
 			payload := c01Pattern[start : start+op.n]
 			if !dropped {
-				ls.exp = append(ls.exp, h...)
-				ls.exp = append(ls.exp, payload...)
-				ls.msgEnds = append(ls.msgEnds, len(ls.exp))
+				m := c01Msg{off: off, n: op.n, start: start}
+				copy(m.h[:], h)
+				ls.msgs = append(ls.msgs, m)
+				ls.total += 5 + op.n
 			}
 			for p := 0; p < op.n; p += c01BufChunk {
 				q := min(p+c01BufChunk, op.n)
-				t := &c01Track{s: op.s, a: off + 5 + p, b: off + 5 + q, refs: 1, dropped: dropped, data: append([]byte(nil), payload[p:q]...)}
+				hd := c01ChunkPool.Get().(*[]byte)
+				t := &c01Track{s: op.s, a: off + 5 + p, b: off + 5 + q, refs: 1, dropped: dropped, handle: hd, data: (*hd)[:q-p]}
+				copy(t.data, payload[p:q])
 				tracks = append(tracks, t)
 				data = append(data, &c01Buf{Buffer: mem.SliceBuffer(nil), t: t})
 			}
@@ -218,12 +225,10 @@ func (w *c01World) apply(op c01Op) bool {
 		ls.trailersPut = true
 		hf := c01SmallHeaders(op.s, "trailers")
 		ls.hdrExp = append(ls.hdrExp, hf)
-		if op.rst {
-			ls.rstExp++
-		}
+		ls.trailersRst = op.rst
 		s := op.s
 		w.give(&serverHeaders{streamID: s, hf: hf, endStream: true, onWrite: func() {},
-			cleanup: &cleanupStream{streamID: s, rst: op.rst, rstCode: http2.ErrCodeNo, onWrite: func() { w.nActive--; w.mark(s) }}})
+			cleanup: &cleanupStream{streamID: s, rst: op.rst, rstCode: http2.ErrCodeNo, onWrite: func() { w.nActive--; w.mark(s, false) }}})
 	case c01KAbort:
 		if w.side != serverSide {
 			return false
@@ -233,10 +238,7 @@ func (w *c01World) apply(op c01Op) bool {
 			return false
 		}
 		hf := c01SmallHeaders(id, "abort")
-		ls := &c01LS{id: id, opened: true, aborted: true, hdrExp: [][]hpack.HeaderField{hf}}
-		if op.rst {
-			ls.rstExp++
-		}
+		ls := &c01LS{id: id, opened: true, aborted: true, trailersRst: op.rst, hdrExp: [][]hpack.HeaderField{hf}}
 		led.ls[c01Idx(id)] = ls
 		w.give(&earlyAbortStream{streamID: id, rst: op.rst, hf: hf})
 	case c01KWUConn:
@@ -277,10 +279,7 @@ func (w *c01World) apply(op c01Op) bool {
 			return false
 		}
 		ls.cleanupPut = true
-		if op.rst {
-			ls.rstExp++
-		}
-		s := op.s
+		s, rst := op.s, op.rst
 		first := !ls.closed
 		if first && w.side == serverSide {
 			w.nActive-- // http2Server.closeStream deletes the stream before it puts the item
@@ -289,7 +288,7 @@ func (w *c01World) apply(op c01Op) bool {
 			if first && w.side == clientSide {
 				w.nActive--
 			}
-			w.mark(s)
+			w.mark(s, rst)
 		}})
 	case c01KInGoAway:
 		w.give(&incomingGoAway{})
@@ -343,7 +342,7 @@ func (w *c01World) apply(op c01Op) bool {
 		for i, ls := range led.ls {
 			w.creditSnap[i] = -1
 			if ls != nil && !before[i] && led.live(ls) && led.pending(ls) {
-				w.creditSnap[i] = ls.frames
+				w.creditSnap[i] = framesBefore[i]
 				w.lastCredit = true
 			}
 		}
@@ -369,16 +368,17 @@ func (w *c01World) observe() {
 		return
 	}
 	w.conn.mu.Lock()
-	cb := w.conn.buf
+	cb, base := w.conn.buf, w.conn.base
 	w.conn.mu.Unlock()
-	total := len(cb) + w.fr.writer.offset
-	if w.fed < len(cb) {
-		w.feed.chunks = append(w.feed.chunks, cb[w.fed:])
-		w.fed = len(cb)
+	connEnd := base + len(cb)
+	total := connEnd + w.fr.writer.offset
+	if w.fed < connEnd {
+		w.feed.chunks = append(w.feed.chunks, cb[w.fed-base:])
+		w.fed = connEnd
 	}
 	if w.fed < total {
 		pend := (*w.fr.writer.bufHandle)[:w.fr.writer.offset]
-		w.feed.chunks = append(w.feed.chunks, pend[w.fed-len(cb):])
+		w.feed.chunks = append(w.feed.chunks, pend[w.fed-connEnd:])
 		w.fed = total
 	}
 	for {
@@ -397,6 +397,13 @@ func (w *c01World) observe() {
 	}
 	w.applyMarks(w.parsedPos)
 	w.feed.chunks = w.feed.chunks[:0]
+	// everything flushed so far has been parsed: drop it
+	w.conn.mu.Lock()
+	if len(w.conn.buf) == len(cb) {
+		w.conn.base += len(cb)
+		w.conn.buf = w.conn.buf[:0]
+	}
+	w.conn.mu.Unlock()
 	if !w.broken && w.parsedPos != total {
 		w.fail("C01", "torn-frame", "%d bytes written but frames end at %d", total, w.parsedPos)
 		w.broken = true
@@ -418,6 +425,9 @@ func (w *c01World) applyMarks(pos int) {
 	for w.markDone < len(w.marks) && w.marks[w.markDone].pos <= pos {
 		if ls := w.led.get(w.marks[w.markDone].s); ls != nil {
 			ls.closed = true
+			if w.marks[w.markDone].rst {
+				ls.rstAllowed++
+			}
 		}
 		w.markDone++
 		w.led.prune()
@@ -481,7 +491,7 @@ func (w *c01World) quiescent() {
 		if ls.cleanupPut && !ls.closed {
 			w.fail("C03", "cleanup-not-consumed", "stream %d: cleanupStream item was put but never consumed although the writer is idle", ls.id)
 		}
-		if ls.rstExp > 0 && (ls.closed || ls.trailersSeen || ls.aborted) {
+		if ls.rstAllowed > 0 {
 			w.fail("C02", "rst-missing", "stream %d: the RST_STREAM that was asked for is not on the wire although the writer is idle", ls.id)
 		}
 		if !ls.orphaned && ls.hdrSeen == 0 {
@@ -493,8 +503,8 @@ func (w *c01World) quiescent() {
 		sw := led.win(ls)
 		if led.pending(ls) {
 			if sw > 0 && led.connWin > 0 {
-				w.fail("C03", "starved-at-quiescence", "writer idle, but stream %d still has %d unsent bytes (END_STREAM pending: %v) and the peer granted stream window %d and connection window %d", ls.id, len(ls.exp)-ls.sent, ls.endPut && !ls.endSeen, sw, led.connWin)
-				w.fail("C02", "incomplete-at-quiescence", "stream %d: only %d of %d written bytes are on the wire (END_STREAM pending: %v) although stream window %d and connection window %d allow more", ls.id, ls.sent, len(ls.exp), ls.endPut && !ls.endSeen, sw, led.connWin)
+				w.fail("C03", "starved-at-quiescence", "writer idle, but stream %d still has %d unsent bytes (END_STREAM pending: %v) and the peer granted stream window %d and connection window %d", ls.id, ls.total-ls.sent, ls.endPut && !ls.endSeen, sw, led.connWin)
+				w.fail("C02", "incomplete-at-quiescence", "stream %d: only %d of %d written bytes are on the wire (END_STREAM pending: %v) although stream window %d and connection window %d allow more", ls.id, ls.sent, ls.total, ls.endPut && !ls.endSeen, sw, led.connWin)
 				if w.lastCredit && w.creditSnap[i] >= 0 && w.creditSnap[i] == ls.frames {
 					w.fail("C03", "no-progress-after-credit", "stream %d was blocked, the peer then granted credit (WINDOW_UPDATE / SETTINGS raise), the writer ran to idle and not one DATA frame of the stream was written (stream window %d, connection window %d)", ls.id, sw, led.connWin)
 				}
@@ -644,14 +654,15 @@ func (w *c01World) key() string {
 		ab(ls.cleanupPut)
 		ab(ls.rstSeen)
 		ab(ls.trailersSeen)
-		ai(int64(ls.rstExp))
+		ai(int64(ls.rstAllowed))
+		ab(ls.trailersRst)
 		if led.live(ls) || (!ls.closed && !ls.rstSeen && !ls.trailersSeen && !ls.orphaned && !ls.aborted) {
 			ab(ls.endPut)
 			ab(ls.endSeen)
 			ab(ls.trailersPut)
 			ai(int64(ls.hdrSeen))
 			ai(led.win(ls))
-			ai(int64(len(ls.exp) - ls.sent))
+			ai(int64(ls.total - ls.sent))
 			ai(int64(led.owed[i]))
 			if a := w.apps[i]; a != nil {
 				ai(int64(atomic.LoadInt32(&a.wq.quota)))
@@ -681,7 +692,7 @@ func (w *c01World) obs() string {
 			rst = rst || ls.rstSeen
 			tr = tr || ls.trailersSeen
 			closed = closed || ls.closed
-			part = part || (ls.sent < len(ls.exp) && ls.sent > 0)
+			part = part || (ls.sent < ls.total && ls.sent > 0)
 		}
 	}
 	for _, f := range w.log {
